@@ -27,3 +27,49 @@ package geojson
 //@   ensures len(coords3) == 0 ==> res2 == nil && res1 == DefaultLayout
 //@   ensures res2 == nil ==> res1 == DefaultLayout || strideOf(res1) >= 2
 //@   modifies nothing
+
+// Decode is total for every Geometry value (json.Unmarshal is trusted never to panic and to write only its
+// target): it returns an error or a geometry that is well formed for its type; collections recurse.
+// (On a stride error the first result is a typed nil pointer inside a non-nil interface, so nothing is
+// promised about it.)
+//@ func Geometry.Decode
+//@   nilrecv
+//@   ensures res2 == nil && g != nil ==> wfT(res1)
+//@   ensures g == nil ==> res1 == nil && res2 == nil
+//@   modifies nothing
+//@   decreases *
+//@   loop 1:
+//@     invariant len(geoms) == len(geometries) && fresh(geoms)
+//@     invariant forall k int :: 0 <= k && k < idx ==> tag(geoms[k]) != 0
+
+// a bounding box is four (XY) or six (XYZ) numbers: min ordinates then max ordinates
+//@ func decodeBBox
+//@   floats real
+//@   ensures (len(bb) == 4 || len(bb) == 6) <==> res2 == nil
+//@   ensures res2 == nil ==> res1 != nil && fresh(res1) && res1.layout == (len(bb) == 4 ? 1 : 2) && len(res1.min) >= len(bb) / 2 && len(res1.max) == len(res1.min)
+//@   ensures res2 == nil ==> forall i int :: 0 <= i && 2 * i + 1 < len(bb) ==> res1.min[i] == bb[i] && res1.max[i] == bb[i + len(bb) / 2]
+//@   ensures res2 != nil ==> res1 == nil
+//@   modifies nothing
+
+//@ func encodeBBox
+//@   floats real
+//@   requires b != nil && Binv(b)
+//@   ensures (b.layout == 1 || b.layout == 3) ==> res2 == nil && len(res1) == 4 && res1[0] == b.min[0] && res1[1] == b.min[1] && res1[2] == b.max[0] && res1[3] == b.max[1]
+//@   ensures (b.layout == 2 || b.layout == 4) ==> res2 == nil && len(res1) == 6 && res1[0] == b.min[0] && res1[1] == b.min[1] && res1[2] == b.min[2] && res1[3] == b.max[0] && res1[4] == b.max[1] && res1[5] == b.max[2]
+//@   ensures !(1 <= b.layout && b.layout <= 4) ==> res2 != nil
+//@   modifies nothing
+
+// Unmarshal, Feature and FeatureCollection decoding: total; on success the geometry is well formed
+//@ func Unmarshal
+//@   requires g != nil
+//@   ensures res == nil ==> tag(*g) == 0 || wfT(*g)
+//@   modifies *g
+
+//@ func Feature.UnmarshalJSON
+//@   floats real
+//@   ensures res == nil ==> tag(f.Geometry) == 0 || wfT(f.Geometry)
+//@   modifies *f
+
+//@ func FeatureCollection.UnmarshalJSON
+//@   floats real
+//@   modifies *fc
